@@ -5,6 +5,7 @@ from .. import a10
 from .. import a9
 from .. import a5
 from .. import a7
+from .. import cfg as C
 from .. import rules as R
 
 EXPLANATION = (
@@ -20,7 +21,7 @@ EXPLANATION = (
     " (R8) the VCF-text header sub-reader (vcf, bcf; sync and async) agrees with the majority of the ten copies of that state machine."
     " (R10) the async VCF writer clears its line buffer before the inner writer fills it; (R11) element-wise reset: every per-sample value row of the reused Samples is cleared (loop, for_each(clear), whole clear, or a callee that resets on all success paths) before parse_values — which returns Ok untouched for a `.` column — fills it."
     " (R12) decode after split: no function splits (split / split_once / memchr) a value that derives from the result of percent_decode."
-    " (R13) table agreement of the header enums: every variant the header writer spells as a literal is the result of an arm of the header parser (genuine defect F46, repaired: FORMAT numbers LA / LR / LG / P / M were written but not parsed). (R14) the header string parser finds the closing quote with a stateful escape scan (shared with C18.R3). (R15) every field of a header map kind's inner struct is read by its writer (genuine defect F55, repaired: IDX).")
+    " (R13) table agreement of the header enums: every variant the header writer spells as a literal is the result of an arm of the header parser (genuine defect F46, repaired: FORMAT numbers LA / LR / LG / P / M were written but not parsed). (R14) the header string parser finds the closing quote with a stateful escape scan (shared with C18.R3). (R15) every field of a header map kind's inner struct is read by its writer (genuine defect F55, repaired: IDX). (R16) the lazy parse_first_allele decides the implicit phasing over all separators.")
 ASSUMPTIONS = ["percent-encoding crate encodes exactly the bytes in the AsciiSet (plus non-ASCII) and decodes %XX",
                "reader delimiter constants are the named DELIMITER/SEPARATOR consts of the reader modules (floor-checked)"]
 NOT_DECIDED = ["value equality over the VCF grammar (numbers, floats, genotype strings, header records)",
@@ -264,6 +265,24 @@ def run(ctx):
         else:
             ctx.ok("C09.R15", wk, "reads " + ", ".join(fields), fw15.loc())
     ctx.floor("C09.R15", "header map kinds with a field-bearing inner struct and a writer", n15, 5)
+
+    ctx.rule("C09.R16", "below VCF 4.4 the first allele of a genotype is unphased as soon as ANY separator of the genotype is `/`: the lazy "
+                        "parse_first_allele decides it over all separators (Iterator::any / all, or a loop), not from the first one found "
+                        "(find / position / next): `0|1/2` would otherwise read phased lazily and unphased eagerly (the rule of C10.R13 for the "
+                        "text side; first C09 seed)")
+    f16 = ctx.anchor("C09.R16", "noodles_vcf::record::samples::series::value::genotype::parse_first_allele")
+    if f16 is not None:
+        ctx.saw_fn(f16)
+        names16 = {(c.get("f") or "").split("::")[-1] for g in fb.family(f16.key) for _b, c in g.calls()}
+        whole = bool(names16 & {"any", "all", "fold", "try_fold", "count"}) or bool(C.natural_loops(f16))
+        first = names16 & {"find", "find_map", "position", "next", "first", "is_some_and"}
+        if whole and not first:
+            ctx.ok("C09.R16", f16.key, "the implicit phasing is decided over all separators (%s)" % ", ".join(sorted(names16 & {"any", "all", "fold", "try_fold", "count"})) , f16.loc())
+        else:
+            ctx.violation("C09.R16", "C09.R16/implicit-phasing-from-first-separator/" + f16.key,
+                          "parse_first_allele decides the implicit phasing of the first allele from %s instead of visiting every separator: "
+                          "for a polyploid genotype with mixed phasing the lazy view disagrees with the eager parser and the writer" % (
+                              ", ".join(sorted(first)) or "no whole-genotype scan"), f16.loc())
 
     ctx.rule("C09.R4", "impl table: variant_end / variant_span are single provided implementations (lazy and eager share them)")
     tr = fb.traits.get(V + "variant::record::Record")
